@@ -27,7 +27,7 @@ CHECKS.update({
          'Trusts the dict model in pbt/checks/c04_dispatch.py and the virtual loop; detach of an absent prefix may raise KeyError.', '6/C04'),
  'C05': ('Exhaustive enumeration of the verdict x latency x signing x digest-state x validator-state grid for both front-ends plus Hypothesis-sampled mixed batches; oracle: harness call log (accepted-before-delivered), verdict mapping, ValidationFailure contents',
          'The combination grid named in the property is small and is enumerated completely in both tiers (exhaustive for that grid); mixed batches on one app instance are sampled.',
-         'Trusts the reference decision table in pbt/checks/c05_validation.py; validators that raise are outside the quantifier.', '6/C05'),
+         'Trusts the reference decision table in pbt/checks/c05_validation.py; validators that raise are outside the quantifier. One known finding (legacy front-end: validator awaited outside the Interest lifetime) is printed as KNOWN-FINDING and matched by its two signatures only.', '6/C05'),
  'C06': ('Exhaustive cut enumeration + Hypothesis cut sets for stream framing through a real asyncio.StreamReader; Hypothesis random bytes and byte/TLV-structural mutations of every packet kind delivered to both front-ends and the UdpFace protocol object with bystander Interests/handlers, + (thorough) an atheris/libFuzzer campaign on the receive path with the bystander oracle inside the target; oracle: exact packet list, normal return, no unhandled loop error, bystanders still work',
          'Generated-input fuzzing of the receive path with a behavioural oracle (not only crash detection); every single cut position of the fixed streams is enumerated.',
          'Trusts the strict TLV walker for deciding what a stream face would hand over; declared lengths < 2^17.', '6/C06'),
